@@ -1,4 +1,5 @@
 CONSTANTS
+  Devs = {}
   Groups = {"data", "open", "ns", "pipe"}
   Drivers = {"iour", "poll"}
   MaxOps = 3
@@ -24,4 +25,4 @@ CONSTANTS
   PVWBufs <- PVW_Narrow
   PVRBufs <- PVR_Narrow
 SPECIFICATION GSpec
-INVARIANTS PathsAgreeModuloKnown Sanity Emit
+INVARIANTS PathsAgree Sanity Emit
